@@ -8,7 +8,7 @@
 From Coq Require Import List NArith Bool.
 From Verif Require Import lib.Quote model.ExSyntax model.ExLexer model.ExParser model.ExScanner model.ExTemplate
   model.ExPrinter proofs.ExScannerBound proofs.QuoteProofs proofs.ExScannerProofs proofs.ExEmbedded proofs.ExRoundtrip proofs.ExRender
-  proofs.ExGlue proofs.ExTemplateProofs.
+  proofs.ExGlue proofs.ExTokName proofs.ExTemplateProofs.
 Import ListNotations.
 Open Scope N_scope.
 
@@ -124,8 +124,9 @@ Theorem c12_literal_one_token : forall printable s rest,
 Proof. exact literal_one_token_stmt. Qed.
 Print Assumptions c12_literal_one_token.
 
-(* Sentence 3 for what refactor.Template writes: for every accepted source with tree t whose printed names are NAME
-   lexemes and no keywords (names_ok), the template scanner, started after "@(", closes exactly the printed expression
+(* Sentence 3 for what refactor.Template writes: for every accepted source with tree t whose context references,
+   lower-cased, are still NAME lexemes and no keywords (refs_ok; the other printed names are NAME tokens of the source,
+   proofs/ExTokName.v), the template scanner, started after "@(", closes exactly the printed expression
    at the ")" that follows it — whatever comes after (closed_expr), also when a text value ends in a backslash (the
    scanner closes literals by backslash parity) — and, when moreover no text value ends in a backslash (texts_ok), the
    lexer reads that same text as exactly the printed tokens: scanner and lexer/parser agree where the expression
@@ -135,7 +136,7 @@ Print Assumptions c12_literal_one_token.
    false without texts_ok (F10b). *)
 Theorem c12_scanner_lexer_agree_printed : forall (lower : N -> N) (printable : N -> bool) inp ts t,
   printable 10 = false -> valid_codepoints inp ->
-  lex inp = LOk ts -> parse_tokens ts = POk t -> names_ok lower t = true ->
+  lex inp = LOk ts -> parse_tokens ts = POk t -> refs_ok lower t = true ->
   closed_expr (print lower printable t)
   /\ (texts_ok t = true -> lex (print lower printable t) = LOk (ptoks lower printable t)).
 Proof. exact scanner_lexer_agree_printed_stmt. Qed.
